@@ -87,6 +87,19 @@ PROFILES = {
                             ["a", "b", "a_sum", "a_sum2", "a_count", "b_mean", "key", "key2", "col_sum"]]},
         "steps": (15, 50),
     },
+    # C09 / C12 history part: joins and aggregates inside histories that write to key columns,
+    # under identity reuse (a result cached on id() of storage only goes stale here)
+    "relhist": {
+        "weights": {"tab_dict": 8, "view": 8, "set": 10, "tset": 8, "setattr": 3, "join": 12, "agg": 12, "copy": 1,
+                    "getitem": 2, "drop": 2, "read": 1, "vec": 2},
+        "core": ["tab_dict", "view", "set", "tset", "join", "agg"],
+        "knobs": {"kinds": [["int", "str", "int", "bool", "float"], ["int", "str"]], "p_none": [0.0, 0.1], "len": [(2, 4), (2, 6)],
+                  "max_cols": [2, 3], "max_objs": [4, 6], "p_wider": [0.0, 0.1], "p_incompat": [0.0], "rare": [0.0],
+                  "p_foreign": [0.0], "join_kinds": [["inner_join"]], "agg_fns": [["aggregate"]], "p_empty": [0.0, 0.03],
+                  "names": [["k", "g", "a", "b"], ["k", "v", "w"]]},
+        "steps": (15, 45),
+        "vid": [[1, 0, 0], [1, 2, 0], [1, 1, 2], [0, 1, 3]],
+    },
     # C17: hostile names, renames through table and views, accessor probes in seeded order
     "names": {
         "weights": {"ntab": 8, "nadd": 3, "nprobe": 26, "nview": 8, "nsetname": 10, "nalias": 2, "nsetattr": 3,
